@@ -604,6 +604,38 @@ func c14FilterRun(c *kit.Ctx, cm *c14Model, flt *c14Filter, fparam *types.Var, r
 					}
 				}
 			}
+			// len(*recv) OP k: "no window at all"
+			if a, b, op, ok := kit.CmpAtom(e); ok {
+				for _, sw := range [2]struct {
+					l, r ast.Expr
+					o    token.Token
+				}{{a, b, op}, {b, a, ruFlip(op)}} {
+					call, isCall := ast.Unparen(sw.l).(*ast.CallExpr)
+					if !isCall || len(call.Args) != 1 {
+						continue
+					}
+					if bi, isB := kit.Callee(info, call).(*types.Builtin); !isB || bi.Name() != "len" {
+						continue
+					}
+					arg := ast.Unparen(call.Args[0])
+					if st, isStar := arg.(*ast.StarExpr); isStar {
+						arg = ast.Unparen(st.X)
+					}
+					if kit.ObjOf(info, arg) != types.Object(recv) {
+						continue
+					}
+					k, isC := kit.ConstInt(info, sw.r)
+					if !isC {
+						continue
+					}
+					switch {
+					case (sw.o == token.EQL && k == 0) || (sw.o == token.LEQ && k == 0) || (sw.o == token.LSS && k == 1):
+						return "nowin", false, true
+					case (sw.o == token.NEQ && k == 0) || (sw.o == token.GTR && k == 0) || (sw.o == token.GEQ && k == 1):
+						return "nowin", true, true
+					}
+				}
+			}
 			if kit.ObjOf(info, e) == types.Object(fparam) {
 				return "", false, false
 			}
@@ -696,6 +728,16 @@ func c14FilterRun(c *kit.Ctx, cm *c14Model, flt *c14Filter, fparam *types.Var, r
 				}
 				// *recv = N
 				if star, ok := ast.Unparen(l).(*ast.StarExpr); ok && kit.ObjOf(info, star.X) == types.Object(recv) {
+					if kit.IsNilIdent(info, r) {
+						// `*recv = nil`: the same as storing an empty kept list; that is what
+						// the filter yields when there is no window to look at
+						if s.Get("a:nowin") == "T" && !s.Has("ito") {
+							s = s.Set("stored", "T")
+						} else {
+							undec = append(undec, fmt.Sprintf("the receiver's list is cleared at %s on a path where windows may exist", f.At(as)))
+						}
+						continue
+					}
 					src := kit.ObjOf(info, r)
 					if src == nil {
 						undec = append(undec, fmt.Sprintf("the receiver's list is replaced by `%s` at %s", f.Str(r), f.At(as)))
@@ -718,6 +760,9 @@ func c14FilterRun(c *kit.Ctx, cm *c14Model, flt *c14Filter, fparam *types.Var, r
 				return []kit.S{s.Set("iti", "1").Set("itl", fmt.Sprint(br.Range.Pos()))}, []kit.S{s.Set("icomplete", "T")}, true
 			case br.Range == outerRS:
 				if !s.Has("ito") {
+					if s.Get("a:nowin") == "T" {
+						return nil, []kit.S{s}, true // no window: the loop body does not run
+					}
 					return []kit.S{s.Set("ito", "1")}, []kit.S{s}, true
 				}
 				// end of one pass over a window
